@@ -269,6 +269,16 @@ func (m refMsg) listOf(kind string) []string {
 	return out
 }
 
+// first returns the value of the first header with that name (any case), "" if absent.
+func (m refMsg) first(name string) string {
+	for i, n := range m.names {
+		if strings.EqualFold(n, name) {
+			return m.values[i]
+		}
+	}
+	return ""
+}
+
 func itoa(i int) string { return strconv.Itoa(i) }
 
 // ---------------------------------------------------------------- doubles
